@@ -16,7 +16,8 @@ Types == {"Foo", "BlogFoo", "Bar", "int"}
 None == ""
 ImportSets == {<<>>, <<[pkg |-> "ext", name |-> "Foo"]>>,
                <<[pkg |-> "other", name |-> "BlogFoo"], [pkg |-> "ext", name |-> "Foo"]>>,
-               <<[pkg |-> "other", name |-> "BlogFoo"]>>}
+               <<[pkg |-> "other", name |-> "BlogFoo"]>>,
+               <<[pkg |-> "ext2", name |-> "Foo"]>>}      \* the same simple name imported from another package
 Pkg == "p"
 ProjectClasses == <<"p.Bar", "p.K1", "p.K2">>      \* clzs: the identifier set (held fixed)
 ClsName(i) == <<"K1", "K2", "K3">>[i]
